@@ -23,10 +23,17 @@ func VerifH_C06_wakeup() {
 	jc.UID = "uid1"
 	q, iq := &fakes.Queue{}, &fakes.Queue{}
 	jinf := &fakes.SharedInformer{}
+	// the JobConfig cache may lag behind the Job cache (freshly created JobConfig,
+	// initial list order at start-up): the owner of an owned Job may not be visible yet
+	jcItems := []*execution.JobConfig{jc}
+	jcVisible := vz.Bool("jobConfigInCache")
+	if !jcVisible {
+		jcItems = nil
+	}
 	ctx := &Context{
 		Context:           &fakes.Context{},
 		jobInformer:       &fakes.JobInformer{Inf: jinf, L: &fakes.JobLister{}},
-		jobconfigInformer: &fakes.JobConfigInformer{Inf: &fakes.SharedInformer{}, L: &fakes.JobConfigLister{Items: []*execution.JobConfig{jc}}},
+		jobconfigInformer: &fakes.JobConfigInformer{Inf: &fakes.SharedInformer{}, L: &fakes.JobConfigLister{Items: jcItems}},
 		jobConfigQueue:    q,
 		independentQueue:  iq,
 		recorder:          &fakes.Recorder{},
@@ -64,7 +71,13 @@ func VerifH_C06_wakeup() {
 	case 3:
 		h.OnDelete(cache.DeletedFinalStateUnknown{Key: "ns/j0", Obj: rj})
 	}
-	if owned {
+	if owned && !jcVisible {
+		// whatever else happens, a Job that belongs to a JobConfig is never handed to the
+		// independent reconciler, which starts Jobs without any concurrency admission
+		vz.Assert(len(iq.Ops) == 0, "C05/wake/owned-job-never-decided-without-its-jobconfig")
+		vz.Assert(len(iq.Ops) == 0, "C06/wake/not-enqueued-as-independent")
+		vz.Cover("owner-not-in-cache")
+	} else if owned {
 		vz.Assert(q.Count("add") == 1 && len(q.Ops) == 1 && q.Ops[0].Key == "ns/jc", "C06/wake/jobconfig-key-enqueued")
 		vz.Assert(len(iq.Ops) == 0, "C06/wake/not-enqueued-as-independent")
 		vz.Cover("owned")
